@@ -119,7 +119,7 @@ func init() {
 		Extra: func(agg *rig.Aggregate, cov map[string]any) {
 			judged := len(agg.Sets["pairs_judged"])
 			fns := len(agg.Sets["functions"])
-			cov["exhaustive"] = map[string]any{
+			cov["exhaustive_dimension"] = map[string]any{
 				"dimension":                "feature type x function as registered by spine.CreateFunctionData",
 				"pairs_in_function_table":  len(pairs),
 				"pairs_judged":             judged,
